@@ -214,6 +214,15 @@ impl TraceHandler {
         )
     }
 
+    /// Verification hook: states after the next of fold iterations that were left unconsumed.
+    #[cfg(aquavm_verif)]
+    pub fn verif_fold_after_states_unconsumed(&mut self, fold_id: u32) -> Option<u64> {
+        self.fsm_keeper
+            .fold_mut(fold_id)
+            .ok()
+            .map(|fold_fsm| fold_fsm.verif_after_states_unconsumed())
+    }
+
     /// Verification hook: the unclaimed fold lore split by cause (not iterated / not replayed yet / mapping lost).
     #[cfg(aquavm_verif)]
     pub fn verif_unclaimed_fold_lore_by_cause(&mut self, fold_id: u32) -> Option<[(usize, u64); 3]> {
